@@ -557,6 +557,12 @@ def run(chk_):
         if 0 <= i < len(lines):
             c.sample({"position": cases[i][1], "expr": cases[i][2], "impl": impl[i][:300], "model": model[i][:300]})
     cli_stream(c)
+    # expressions as posting amounts inside whole ledgers (declared precisions, histories, omitted counter-amounts): the
+    # shared book-keeping stream, judged for the clauses it attributes to C08 (a written expression's booked amount)
+    import bookstream
+    recs = bookstream.run_stream(c, 400 if c.tier == "quick" else 8000, flavors=["expr", "expr-precision"], corpus=())
+    bookstream.judge(c, recs, "C08")
+    c.streams["ledgers with expression amounts (book-keeping stream)"] = len(recs)
 
 
 def balanced_outer(t):
